@@ -3,6 +3,7 @@ import CallbagModel.Mon
 import Driver.ParDrv
 import Driver.IvlDrv
 import Driver.PipeDrv
+import CallbagModel.Spec14
 /-!
 # cbdrv — the compiled driver (imports model files only)
 
@@ -97,7 +98,11 @@ def judgeLine (prop : String) (line : String) (st : Stats) : IO Stats := do
       let vs := m.g.viols.filter (fun v => v.prop == p)
       -- the functional specification of the operator (Spec.lean), on conformant traces in its domain
       let specBad : Bool :=
-        if specProps.contains prop && m.envOk && m.shapeOk && !m.panicked then
+        if prop == "C14" && m.envOk && m.shapeOk && !m.panicked then
+          let evs2 := rtoks.filterMap (parseEv (α := Int) (β := inst.β) String.toInt? inst.pb)
+          let tr := evs2.reverse
+          if evs2.length == rtoks.length && pullableTr tr then !(demandOk tr) else false
+        else if specProps.contains prop && m.envOk && m.shapeOk && !m.panicked then
           match inst.spec with
           | some f =>
             let evs2 := rtoks.filterMap (parseEv (α := Int) (β := inst.β) String.toInt? inst.pb)
@@ -125,6 +130,20 @@ def main (args : List String) : IO UInt32 := do
     let some inst := instOf name | IO.eprintln s!"unknown instance {name}"; return 2
     let ls := leaves inst.M inst.nSinks depth.toNat! (Sys.init inst.M) [] #[]
     for ms in ls do
+      IO.println s!"{name} | {scriptTxt ms} | {traceTxt inst.M inst.fb ms}"
+    return 0
+  | ["gen14", name, depth] =>
+    let some inst := instOf name | IO.eprintln s!"unknown instance {name}"; return 2
+    let ls := leaves inst.M inst.nSinks depth.toNat! (Sys.init inst.M) [] #[] pullableB
+    for ms in ls do
+      IO.println s!"{name} | {scriptTxt ms} | {traceTxt inst.M inst.fb ms}"
+    return 0
+  | ["rand14", name, count, len, seed] =>
+    let some inst := instOf name | IO.eprintln s!"unknown instance {name}"; return 2
+    let mut r : UInt64 := seed.toNat!.toUInt64 * 6364136223846793005 + 1442695040888963407
+    for _ in [0:count.toNat!] do
+      r := rngNext (r + 1)
+      let ms := randomWalk inst.M inst.nSinks len.toNat! r pullableB
       IO.println s!"{name} | {scriptTxt ms} | {traceTxt inst.M inst.fb ms}"
     return 0
   | ["rand", name, count, len, seed] =>
